@@ -56,6 +56,67 @@ impl Heap {
     }
 }
 
+/// the value `x.into()` produces for the `Into<VCell>` argument of put / maybe_put
+pub open spec fn into_vcell<T: Into<VCell>>(x: T) -> VCell { <T as vstd::std_specs::convert::IntoSpec<VCell>>::into_spec(x) }
+pub open spec fn into_obeys<T: Into<VCell>>() -> bool { <T as vstd::std_specs::convert::IntoSpec<VCell>>::obeys_into_spec() }
+/// values maybe_put returns as they are instead of boxing them
+pub open spec fn is_immediate(v: VCell) -> bool { v is Number || v is Bool || v is Char || v is Nil || v is Void || v is Undefined }
+/// p was free (or beyond the old heap) and is now allocated
+pub open spec fn fresh_cell(old: Heap, new: Heap, p: int) -> bool {
+    0 <= p < new.len() && (p < old.len() ==> old.state(p) == 0) && new.state(p) == 1
+}
+/// `&String -> String` conversion copies the text (std: `impl From<&String> for String` clones)
+#[verifier::external_body]
+pub proof fn axiom_string_from_ref(s: &String)
+    ensures <String as vstd::std_specs::convert::FromSpec<&String>>::obeys_from_spec(),
+            <String as vstd::std_specs::convert::FromSpec<&String>>::from_spec(s) == *s {}
+
+/// after `alloc` (state `mid`), writing a symbol into the fresh cell p and registering it keeps the invariant
+pub proof fn lemma_put_symbol(old: Heap, mid: Heap, new: Heap, p: int, v: VCell, nameref: &String)
+    requires old.wf(), mid.wf(), !old.table().contains_key((*nameref)), v matches VCell::Symbol(s) && *s == (*nameref),
+        mid.table() == old.table(), mid.len() >= old.len(), fresh_cell(old, mid, p),
+        forall|q: int| 0 <= q < old.len() ==> mid.cells()[q] == old.cells()[q],
+        forall|q: int| 0 <= q < old.len() && q != p ==> mid.state(q) == old.state(q),
+        new.gcmap() == mid.gcmap(), new.free_cells() == mid.free_cells(), new.chunk() == mid.chunk(),
+        new.cells() == mid.cells().update(p, v), new.table() == mid.table().insert((*nameref), p as usize),
+    ensures new.wf()
+{
+    assert forall|i: int| 0 <= i < new.free_cells().len() implies (#[trigger] new.free_cells()[i]) < new.len() && new.state(new.free_cells()[i] as int) == 0 by {}
+    assert forall|q: int| 0 <= q < new.len() && #[trigger] new.state(q) == 0 implies new.free_cells().contains(q as usize) by { assert(mid.state(q) == 0); }
+    assert forall|q: int| 0 <= q < new.len() && new.state(q) == 0 implies (#[trigger] new.cells()[q]) == VCell::Undefined by { assert(mid.state(q) == 0); assert(mid.cells()[q] == VCell::Undefined); }
+    assert forall|n: String| #[trigger] new.table().contains_key(n) implies new.interned_at(n, new.table()[n] as int) by {
+        if n != (*nameref) {
+            assert(old.table().contains_key(n));
+            assert(old.interned_at(n, old.table()[n] as int));
+            assert(mid.interned_at(n, mid.table()[n] as int));
+        }
+    }
+    assert forall|q: int| 0 <= q < new.len() && new.state(q) != 0 implies new.symbol_cell_interned(q) by {
+        if q != p {
+            assert(mid.symbol_cell_interned(q));
+            match mid.cells()[q] { VCell::Symbol(s2) => { assert(mid.table().contains_key(*s2)); assert(old.table().contains_key(*s2)); } _ => {} }
+        }
+    }
+}
+/// ... and so does writing any non-symbol value
+pub proof fn lemma_put_plain(mid: Heap, new: Heap, p: int, v: VCell)
+    requires mid.wf(), !(v is Symbol), 0 <= p < mid.len(), mid.state(p) == 1, mid.cells()[p] == VCell::Undefined,
+        new.gcmap() == mid.gcmap(), new.free_cells() == mid.free_cells(), new.chunk() == mid.chunk(), new.table() == mid.table(),
+        new.cells() == mid.cells().update(p, v),
+    ensures new.wf()
+{
+    assert forall|i: int| 0 <= i < new.free_cells().len() implies (#[trigger] new.free_cells()[i]) < new.len() && new.state(new.free_cells()[i] as int) == 0 by {}
+    assert forall|q: int| 0 <= q < new.len() && #[trigger] new.state(q) == 0 implies new.free_cells().contains(q as usize) by { assert(mid.state(q) == 0); }
+    assert forall|q: int| 0 <= q < new.len() && new.state(q) == 0 implies (#[trigger] new.cells()[q]) == VCell::Undefined by { assert(mid.state(q) == 0); assert(mid.cells()[q] == VCell::Undefined); }
+    assert forall|n: String| #[trigger] new.table().contains_key(n) implies new.interned_at(n, new.table()[n] as int) by {
+        assert(mid.interned_at(n, mid.table()[n] as int));
+        // the fresh cell was not interned: it held Undefined... it is live now but was not a symbol cell of the table
+        if mid.table()[n] == p { assert(mid.symbol_cell_interned(p)); }
+    }
+    assert forall|q: int| 0 <= q < new.len() && new.state(q) != 0 implies new.symbol_cell_interned(q) by {
+        if q != p { assert(mid.symbol_cell_interned(q)); }
+    }
+}
 proof fn lemma_names_step(pre: Heap, old: Heap, it: int, name: String)
     requires pre.wf(), old.wf(), 0 <= it < old.len(), pre.swept_upto(old, it),
     ensures pre.name_swept(old, name, it),
@@ -194,7 +255,7 @@ UNITS = [{
     'file': 'src/vm/heap.rs',
     'wrap': ['struct Heap'],
     'wraps_types': ['Heap'],
-    'uses_types': ['VCell', 'Cell', 'Continuation', 'Lambda'],
+    'uses_types': ['VCell', 'Cell', 'Continuation', 'Lambda', 'RcDeref'],
     'prelude': PRELUDE,
     'fns': {
         # f64 arithmetic in the growth policy: contract assumed (Kani-bounded harness heap_grow spot-checks it)
@@ -213,7 +274,7 @@ UNITS = [{
             'ensures': [
                 (HS, 'final(self).wf() && final(self).len() >= old(self).len() && final(self).table() == old(self).table()'),
                 # the cell handed out was free (never an allocated one) and is now allocated; nothing else changes
-                (H, 'r < final(self).len() && (r < old(self).len() ==> old(self).state(r as int) == 0) && final(self).state(r as int) == 1'),
+                (H, 'r < final(self).len() && (r < old(self).len() ==> old(self).state(r as int) == 0) && final(self).state(r as int) == 1 && final(self).cells()[r as int] == VCell::Undefined'),
                 (H, 'forall|p: int| 0 <= p < old(self).len() && p != r ==> final(self).state(p) == old(self).state(p)'),
                 (H, 'forall|p: int| 0 <= p < old(self).len() ==> final(self).cells()[p] == old(self).cells()[p]'),
                 (H, 'forall|p: int| old(self).len() <= p < final(self).len() && p != r ==> final(self).state(p) == 0'),
@@ -237,6 +298,51 @@ UNITS = [{
                     assert(self.free_cells().contains(q as usize));
                 }'''},
                 {'anchor': 'self.heap_map.set(ptr, State::Allocated);', 'where': 'after', 'text': ALLOC_PROOF},
+            ],
+        },
+        'impl Heap::put': {
+            'props': HS + ['C06'],
+            'body_start': 'broadcast use vstd::std_specs::hash::group_hash_axioms; proof { axiom_string_key(); }',
+            'requires': ['old(self).wf()', 'into_obeys::<T>()'],
+            'inserts': [
+                {'anchor': 'let ptr = self.alloc();', 'nth': 0, 'where': 'after', 'text': 'let ghost mid = *self; proof { axiom_string_from_ref(&**sym); }'},
+                {'anchor': 'self.symbol_table.insert(sym.deref().into(), ptr);', 'where': 'after', 'text': 'proof { lemma_put_symbol(*old(self), mid, *self, ptr as int, vcell, &**sym); }'},
+                {'anchor': 'let ptr = self.alloc();', 'nth': 1, 'where': 'after', 'text': 'let ghost mid = *self;'},
+                {'anchor': 'VCell::Ptr(ptr)', 'where': 'before', 'text': 'proof { lemma_put_plain(mid, *self, ptr as int, *vcell); }'},
+            ],
+            'ensures': [
+                (HS, 'final(self).wf() && final(self).len() >= old(self).len()'),
+                # live cells are never overwritten; states other than the fresh cell's are kept
+                (H, 'forall|p: int| 0 <= p < old(self).len() && old(self).state(p) != 0 ==> final(self).cells()[p] == old(self).cells()[p] && final(self).state(p) == old(self).state(p)'),
+                # interning: a symbol whose name is in the table is answered with the table's cell and nothing changes;
+                # otherwise it gets a fresh cell that becomes the table entry for exactly that name
+                (['C18'], 'into_vcell(vcell) matches VCell::Symbol(s) ==> ((old(self).table().contains_key(*s) ==> r == VCell::Ptr(old(self).table()[*s]) && final(self).table() == old(self).table() && final(self).cells() == old(self).cells() && final(self).gcmap() == old(self).gcmap()) && (!old(self).table().contains_key(*s) ==> (r matches VCell::Ptr(p) && fresh_cell(*old(self), *final(self), p as int) && final(self).cells()[p as int] == into_vcell(vcell) && final(self).table() == old(self).table().insert(*s, p))))'),
+                (['C18'], '!(into_vcell(vcell) is Symbol) ==> final(self).table() == old(self).table()'),
+                (H, '!(into_vcell(vcell) is Symbol) && !(into_vcell(vcell) is Ptr) ==> (r matches VCell::Ptr(p) && fresh_cell(*old(self), *final(self), p as int) && final(self).cells()[p as int] == into_vcell(vcell))'),
+                (H, 'into_vcell(vcell) is Ptr ==> r == into_vcell(vcell) && final(self).cells() == old(self).cells() && final(self).gcmap() == old(self).gcmap()'),
+            ],
+        },
+        'impl Heap::maybe_put': {
+            'props': HS + ['C06'],
+            'body_start': 'broadcast use vstd::std_specs::hash::group_hash_axioms; proof { axiom_string_key(); }',
+            'requires': ['old(self).wf()', 'into_obeys::<T>()'],
+            'inserts': [
+                {'anchor': 'let ptr = self.alloc();', 'nth': 0, 'where': 'after', 'text': 'let ghost mid = *self; proof { axiom_string_from_ref(&**sym); }'},
+                {'anchor': 'self.symbol_table.insert(sym.deref().into(), ptr);', 'where': 'after', 'text': 'proof { lemma_put_symbol(*old(self), mid, *self, ptr as int, vcell, &**sym); }'},
+                {'anchor': 'let ptr = self.alloc();', 'nth': 1, 'where': 'after', 'text': 'let ghost mid = *self;'},
+                {'anchor': 'VCell::Ptr(ptr)', 'where': 'before', 'text': 'proof { lemma_put_plain(mid, *self, ptr as int, *vcell); }'},
+            ],
+            'ensures': [
+                (HS, 'final(self).wf() && final(self).len() >= old(self).len()'),
+                # live cells are never overwritten; states other than the fresh cell's are kept
+                (H, 'forall|p: int| 0 <= p < old(self).len() && old(self).state(p) != 0 ==> final(self).cells()[p] == old(self).cells()[p] && final(self).state(p) == old(self).state(p)'),
+                # interning: a symbol whose name is in the table is answered with the table's cell and nothing changes;
+                # otherwise it gets a fresh cell that becomes the table entry for exactly that name
+                (['C18'], 'into_vcell(vcell) matches VCell::Symbol(s) ==> ((old(self).table().contains_key(*s) ==> r == VCell::Ptr(old(self).table()[*s]) && final(self).table() == old(self).table() && final(self).cells() == old(self).cells() && final(self).gcmap() == old(self).gcmap()) && (!old(self).table().contains_key(*s) ==> (r matches VCell::Ptr(p) && fresh_cell(*old(self), *final(self), p as int) && final(self).cells()[p as int] == into_vcell(vcell) && final(self).table() == old(self).table().insert(*s, p))))'),
+                (['C18'], '!(into_vcell(vcell) is Symbol) ==> final(self).table() == old(self).table()'),
+                (H, 'is_immediate(into_vcell(vcell)) ==> r == into_vcell(vcell) && final(self).cells() == old(self).cells() && final(self).gcmap() == old(self).gcmap()'),
+                (H, '!(into_vcell(vcell) is Symbol) && !(into_vcell(vcell) is Ptr) && !is_immediate(into_vcell(vcell)) ==> (r matches VCell::Ptr(p) && fresh_cell(*old(self), *final(self), p as int) && final(self).cells()[p as int] == into_vcell(vcell))'),
+                (H, 'into_vcell(vcell) is Ptr ==> r == into_vcell(vcell) && final(self).cells() == old(self).cells() && final(self).gcmap() == old(self).gcmap()'),
             ],
         },
         'impl Heap::sweep': {
